@@ -5,23 +5,23 @@ The hand-written parts are the PROVED table and the prose blocks below."""
 import json, glob, subprocess, re, os
 ROOT = os.path.dirname(os.path.dirname(os.path.abspath(__file__)))
 PROVED = {
-'C01': 'full: all widths, exponents, radixes; guard characterised (ok iff fits); Rat-valued "denotes" corollaries; wrapper reps by correspondence',
-'C02': 'full: `/ %` values and exponents, identity for all type pairs, remainder; `quotient()` exact, wide enough, error < 1 unit',
+'C01': 'full: all widths, exponents, radixes; guard characterised (ok iff fits); Rat-valued "denotes" corollaries; wrapper reps by correspondence; over overflow_integer / overflow_integer<elastic_integer> representations and with built-in operands next to elastic representations (`ov_*_exact`, `safe_bin_is_elastic`, `builtin_operand_*`)',
+'C02': 'full: `/ %` values and exponents, identity for all type pairs, remainder; `quotient()` exact, wide enough, error < 1 unit; over elastic_integer and overflow_integer representations (`elastic_div_mod_values`, `checked_div_mod_values`, `checked_minus_max_by_minus_one`)',
 'C03': 'full for scaled (by value / built-in rule for mixed signedness, trichotomy); elastic via C05; wide same-type via C10; wide comparisons of different types by value for all limb counts and signednesses (after two repairs); integer-vs-wrapper by correspondence',
-'C04': 'integer conversions full (exact or truncated toward zero); radix-2 floating point: correctly rounded (nearest, ties to even, stated on exact dyadics), exact when it fits, round trip identity, float→scaled exact or truncated',
-'C05': 'full for `+ − * / %`, unary −, `<< k`, comparisons; `>> k` refuted + proved under the complementary hypothesis; elastic_scaled_integer: `scale<±k>`, `+ − * / %`, negation, comparisons exact and in range',
-'C06': 'builtin path: `+ − *` for ANY signedness/width mix; portable path: value-preserving pairs; `/`, `<<` (every count), `−x`, integer convert, float→integer convert (flag iff real value outside the range); refutations of the two open classes',
-'C07': 'totality for all operand pairs incl. mixed signedness, both paths, `<<`/`>>` for every non-negative count, float sources',
+'C04': 'integer conversions full (exact or truncated toward zero); radix-2 floating point: correctly rounded (nearest, ties to even, stated on exact dyadics), exact when it fits, round trip identity, float→scaled exact or truncated; `wrap`/`unwrap` and `from_rep`/`to_rep` exact inverses for every nest and argument type (`WrapInverse.*`)',
+'C05': 'full for `+ − * / %`, unary −, `<< k`, comparisons; `>> k` refuted + proved under the complementary hypothesis; elastic_scaled_integer: `scale<±k>`, `+ − * / %`, negation, comparisons exact and in range; multi-word `/ %` identity (`wide_divmod_identity`, `wide_divmod_roundtrip`)',
+'C06': 'builtin path: `+ − *` for ANY signedness/width mix; portable path: value-preserving pairs; `/`, `<<` (every count), `−x`, integer convert, float→integer convert (flag iff real value outside the range); refutations of the two open classes; conversions between overflow_integer types, negative to unsigned, radix conversions into checked representations (`wrapper_convert_*`, `radix_scale_correct`)',
+'C07': 'totality for all operand pairs incl. mixed signedness, both paths, `<<`/`>>` for every non-negative count, float sources; wrapper and radix conversions (`wrapper_convert_total`, `radix_scale_total`)',
 'C08': 'full: all widths, mixed types, four modes; spec characterised and unique',
-'C09': 'scaled paths under the complements of the classes; float→int: native, neg_inf, nearest (every input) and ties-up (exact bias); float→scaled: power exactness, native, complements of three classes; the rounding_integer-rep route correctly rounded whenever the instantiation compiles',
-'C10': 'full incl. Knuth completeness and Karatsuba (transcribed with scratch memory, proved exact after the repair); float conversions: from-float exact for every finite input, to-float exact when representable and faithful (two-neighbour bracket) below the overflow neighbourhood',
+'C09': 'scaled paths under the complements of the classes; float→int: native, neg_inf, nearest (every input) and ties-up (exact bias); float→scaled: power exactness, native, complements of three classes; the rounding_integer-rep route correctly rounded whenever the instantiation compiles; conversion operators to fundamental integers (`wrapped_to_integer_*`), elastic plain conversion for every shift (`elastic_plain_truncates`)',
+'C10': 'full incl. Knuth completeness and Karatsuba (transcribed with scratch memory, proved exact after the repair); float conversions: from-float exact for every finite input, to-float exact when representable and faithful (two-neighbour bracket) below the overflow neighbourhood; built-in operands on either side of a multi-word operand (`builtin_operand_spec`), two defects refuted in the kernel',
 'C11': 'full: per node and by induction over expression trees (`never_silently_wrong`, now with shift nodes: `<<` exact or signalled, `>>` the floor, run-time / static_integer / constant counts) outside the refuted classes; per-node theorems for every narrowest type, multi-word storage (rests on C10) and static ⊗ built-in operands; construction from floating point flags iff the real value is out of range',
 'C12': 'full for nests of any depth and order incl. exponent-changing operations (`scale_transparent`), ++/−−, documentation kernels',
 'C13': 'integers full incl. per-base capacity; every value incl. the most negative; scaled contract for signed and unsigned significands and every radix; scaled capacity for non-negative exponents (partial)',
 'C14': 'integers full; fractional clauses (never above, < 1 unit of the last digit + proven precision allowance, exact when it fits) for every significand type',
-'C15': 'Horner for any length, chunk bounds, width estimate, scanner/grammar link proved symbolically for every well-formed token (one harmless exclusion), run-time parse for ≥ 64-bit results, deduction incl. static_* for every constant, Precise descale value invariant',
+'C15': 'Horner for any length, chunk bounds, width estimate, scanner/grammar link proved symbolically for every well-formed token (one harmless exclusion), run-time parse for ≥ 64-bit results, deduction incl. static_* for every constant, Precise descale value invariant; `from_value` for every archetype and constant, radix-free (`from_value_constant_exact`, `_radix_free`, `from_value_value_exact`), fraction guides (`fraction_guide_holds_significand`), alias CTAD within `int` (`ctad_alias_int_exact`)',
 'C16': 'full under explicit fit guards; hash equality for every hash function',
-'C17': 'full statement REFUTED; invariants, exits, fuel independence proved (partial)',
+'C17': 'full statement REFUTED; invariants, exits, fuel independence proved (partial); generic component model: saturating / checked components stay in range (`C17_comp_*`), generic = built-in on the sweep and the witnesses (`C17_generic_*`)',
 'C18': 'full: all widths, three configurations',
 'C19': 'full incl. termination and no overflow of root+bit',
 'C20': '8-bit tables, oracle soundness, integral exactness for every 8/16/32-bit format, below-range inputs; constants proved against the true reals for 1342 of 1386 entries (partial: 16/32-bit exp2 by sweep, 44 γ entries numerical)',
@@ -42,6 +42,15 @@ TRUSTED = '''
   against a proved-sound oracle), the scaled `to_chars` capacity for negative exponents, float ->
   unsigned __int128 overflow tests, the to-float two-neighbour bracket of wide_integer within a factor 2
   of the overflow threshold, `make_fraction` outside its refuted classes.
+* Added in rounds 4 and 5 and tied by correspondence only (model + independent oracle, no theorem): the
+  division identity and `quotient()` over wrapped representations (C02), aligned `+ -` of different
+  exponents under a reacting overflow tag and built-in operands at non-zero exponents (C01), the general
+  shapes of radix conversion into checked representations and release-build behaviour (C06/C07), the
+  non-plain rounding routes of elastic_scaled_integer, static_number and nests to integers (C09), the
+  result-type rule of built-in (x) multi-word wide operators and multi-word `to_chars` / capacity (C10),
+  the value search behind `fraction{floating}` and alias-template initializers wider than `int` (C15),
+  "generic make_fraction = built-in make_fraction for every input" (C17; lines the generic model cannot
+  predict are judged by the property's oracle alone and labelled `unpredicted`).
 * Not modelled: `std::gcd`, `std::hash<int>` (arbitrary function), `<cmath>` calls, iostream state beyond
   `operator<<` delegating to `to_chars_static`, allocator-backed `uintwide_t`, MSVC branches,
   Boost.Multiprecision glue, the dead `_impl/duplex_integer` headers.
@@ -126,6 +135,17 @@ this section by `tools/design_asbuilt.py`).
   with the axioms each depends on (`#print axioms`, allowed ⊆ {{propext, Classical.choice,
   Quot.sound}}), lines evaluated, distinct non-trivial cases (hash set in the driver),
   agreement counts, branch histogram, translation units, samples of actual lines.
+* **Header coverage of the tie.** `tools/coverage.py` rebuilds every harness translation unit with
+  `g++ --coverage`, runs it and aggregates `gcov` per header line of `/repo/include/cnl`: lines that no
+  correspondence line ever executes (and `return` lines no harness ever instantiates) are gaps of the
+  instantiation grids where a change of the library could not be observed.  Its first run (2148
+  instantiated lines, 2023 executed) showed that `num_traits/wrap.h`, `wrapper/ostream.h`,
+  `elastic_integer/operators.h` and the `set_rounding` conversion inside integer `to_chars` were never
+  reached; the C04 `C04w` table and the wrapper sweep of C13/C14 came from it, and caught three of the
+  round-4 seeded changes (C04-9, C13-10, C13-11) before they were run.
+* **Harness faults that are observations.** A harness that hangs or does not compile against the
+  working tree is reported as a broken tie (`VIOLATION … no-failing-input-found`), not as an error of
+  the machinery.
 * **Scratch repositories.** `VERIF_REPO=<dir> python3 check.py Cxx` runs a check against
   another copy of the repository (evidence and replays then go to `.cache/alt-*`);
   `tools/seeded.py` / `tools/seeded_one.sh` use it to run the checks against every seeded
@@ -158,11 +178,14 @@ hypothesis `CastFinite` of `to_float_correctly_rounded`.
 
 ### 12.5 Which check catches which seeded change
 
-{len(seeded)} seeded changes were written in two rounds by independent workers that saw only the
-property text and a scratch worktree (round 2 was told which files round 1 had used and asked
-for shared helpers, narrow instantiations and single boundary values); each was confirmed here
-(patch applies, the demonstration passes without it and fails with it, the unit suite still
-passes with it) and is kept under `seeded/<id>/`; `seeded/README.md` is the full table
+{len(seeded)} seeded changes were written in five rounds by independent workers that saw only the
+property text and a scratch worktree (from round 2 on they were told which files earlier rounds had
+used and asked for shared helpers, narrow instantiations, single boundary values, cooperating sites,
+rarely used overloads and operand kinds; rounds 4 and 5, written against the machinery of round 3,
+were the hardest: 29 of the 60 round-4 changes and 16 of the 33 round-5 changes were missed at first); each was confirmed here
+(patch applies, the demonstration passes without it and fails with it; the unit suite was re-run
+here with the change for as many as the time allowed - see `unit_suite` in each `meta.json` - and by
+the writer of the change for all of them) and is kept under `seeded/<id>/`; `seeded/README.md` is the full table
 (change, the check that catches it, how).  {len(seeded) - len(strengthened)} were caught by the
 quick check of the property they break at the first attempt.  The {len(strengthened)} misses were
 gaps of the *instantiation grid or of the operand kinds a harness exercised*, not of the
